@@ -72,7 +72,7 @@ class TSpec(Spec):
         self.env[name] = SArr(name, new if z3.is_true(a) else z3.If(a, new, arr.arr), None, False)
 
 
-def check_spec(specname, N, fixed=None, qtimeout_ms=30000, use_pre=True, want_model=True, plan_only=False):
+def check_spec(specname, N, fixed=None, qtimeout_ms=30000, use_pre=True, want_model=True, plan_only=False, safety_only=False):
     """-> result dict for one specialization"""
     t0 = time.time()
     sp = kspec.spec_by_name()[specname]
@@ -180,11 +180,11 @@ def check_spec(specname, N, fixed=None, qtimeout_ms=30000, use_pre=True, want_mo
     res['instrs'] = ctx.eng.stats['instrs']
     res['funcs'] = sorted(ctx.eng.stats['funcs'])
     # ---- obligations
-    obls = [('status', 'error status differs', cerr != spec.err)]
+    obls = [('status', 'error status differs', cerr != spec.err)] if not safety_only else []
     live = z3.Not(spec.err)
     cells = {}
     for g, nm, idx, rw in spec.acc:
-        if rw != 'w':
+        if rw != 'w' or safety_only:
             continue
         key = (nm, z3.simplify(idx).sexpr())
         if key in cells:
